@@ -281,15 +281,15 @@ def addUnminedCredits (s : Store) (tr : TxRec) : M Store := do
   pure ((gameOuts tr).foldl (fun s rel =>
     { s with pendGame := AMap.put s.pendGame (rel.wallet, rel.out.cls.isBinding, tr.tx.id, rel.index) () }) s)
 
-/-- removeUnminedGameHistory: NOTE the code builds the key with vout left at 0 (history.vout is never
-    assigned in the loop), so only the entry of output 0 can be deleted. Modelled as written. -/
+/-- removeUnminedGameHistory: the unmined history record of every staking / binding output that pays an
+    owned address (after the fix: keyed by the output's own index) -/
 def removeUnminedGameHistory (own : Own) (s : Store) (tx : Tx) : Store :=
-  tx.outs.foldl (fun s o =>
+  foldIdx (fun s i o =>
     if o.cls.isStaking || o.cls.isBinding then
       match AMap.get own o.addr with
-      | some (w, _) => { s with pendGame := AMap.erase s.pendGame (w, o.cls.isBinding, tx.id, 0) }
+      | some (w, _) => { s with pendGame := AMap.erase s.pendGame (w, o.cls.isBinding, tx.id, i) }
       | none => s
-    else s) s
+    else s) tx.outs 0 s
 
 /-- removeConflict (txstore.go): remove a pending tx and, recursively, pending spenders of its outputs.
     `fuel` bounds the recursion depth (the pending set is a finite DAG; callers pass its size + 1;
